@@ -352,6 +352,7 @@ pub fn run(tier: Tier) -> i32 {
         }
     }
     super::c02d::run_into(&mut rep, tier);
+    super::cq::c02_into(&mut rep);
     // a sample execution, written out
     {
         let (case, _) = cases(tier).into_iter().nth(2).unwrap();
